@@ -1,6 +1,7 @@
 package interp
 
 import (
+	"bytes"
 	"errors"
 	"math"
 	"strconv"
@@ -146,7 +147,7 @@ func verifRefTruth(v value) bool {
 // checkArg compares what a Go parameter of the given kind received with the documented conversion of v.
 // Integer kinds: the number truncated toward zero when that lies in the parameter type's range (and in the
 // int64 range); outside it Go leaves float-to-integer conversion implementation-defined and nothing is asserted.
-func verifCheckArg(kind int, v value, got any) {
+func verifCheckArg(p *interp, kind int, v value, got any) {
 	x := verifRefNum(v)
 	tr := math.Trunc(x)
 	inRange := func(lo, hi float64) bool { return x == x && tr >= lo && tr <= hi }
@@ -230,15 +231,30 @@ func verifCheckArg(kind int, v value, got any) {
 		case typeStr, typeNumStr:
 			verifAssert(g == v.s, "a string argument did not arrive unchanged")
 		default:
-			if v.n == v.n && !math.IsInf(v.n, 0) {
-				integral := math.Trunc(v.n) == v.n && v.n >= -9223372036854775808.0 && v.n < 9223372036854775808.0
-				k := verifOpaqueKind(g)
-				verifAssert((k == 1) == integral, "a number argument did not arrive in AWK's string form (integers as integers, others through CONVFMT)")
-				if k == 1 {
-					verifAssert(float64(verifOpaqueInt(g)) == v.n, "an integral number argument arrived as different digits")
-				}
-			}
+			// AWK's string form of a number (integers as integers, others through CONVFMT) is what C05 checks;
+			// here: the parameter receives exactly that form, and for the fixed numbers its text is spelled out
+			verifAssert(g == p.toString(v), "a number argument did not arrive in AWK's string form (integers as integers, others through CONVFMT, not OFMT)")
 		}
+	}
+}
+
+// for the fixed numbers handed to string kinds the text is spelled out (CONVFMT is %.2f in these harnesses)
+func verifCheckSpelled(kind int, v value, got any) {
+	g, ok := got.(string)
+	if !ok || v.typ != typeNum || (kind != 13 && kind != 14) {
+		return
+	}
+	switch v.n {
+	case 2.5:
+		verifAssert(g == "2.50", "2.5 did not arrive formatted by CONVFMT")
+	case -0.000001:
+		verifAssert(g == "-0.00", "-0.000001 did not arrive formatted by CONVFMT")
+	case 123456789:
+		verifAssert(g == "123456789", "an integral number did not arrive as an integer")
+	case 3.75:
+		verifAssert(g == "3.75", "3.75 did not arrive formatted by CONVFMT")
+	case 41.9:
+		verifAssert(g == "41.90", "41.9 did not arrive formatted by CONVFMT")
 	}
 }
 
@@ -280,8 +296,11 @@ func verifCheckResult(kind int, got any, r value) {
 	}
 }
 
+const verifC17Convfmt, verifC17Ofmt = "%.2f", "%.4f"
+
 func verifNativeInterp(funcs map[string]any) *interp {
 	p := verifBuiltinInterp(false)
+	p.convertFormat, p.outputFormat = verifC17Convfmt, verifC17Ofmt
 	verifAssert(p.initNativeFuncs(funcs) == nil, "a function map of documented shapes was rejected")
 	return p
 }
@@ -327,7 +346,7 @@ func VerifC17Convert() {
 		return
 	}
 	verifReach("converted")
-	verifCheckArg(kind, v, verifCalls[0].args[0])
+	verifCheckArg(p, kind, v, verifCalls[0].args[0])
 	verifCheckResult(kind, verifCalls[0].args[0], r)
 }
 
@@ -344,7 +363,15 @@ func VerifC17Positions() {
 	name := names[verifIntRange(0, len(names)-1)]
 	arity := verifC17Arity[name]
 	nargs := verifIntRange(0, arity+1)
-	src := "BEGIN { r = " + name + "("
+	// an earlier call of the same function with every argument given: nothing of it may show in the examined call
+	src := "BEGIN { " + name + "("
+	for i := 0; i < arity; i++ {
+		if i > 0 {
+			src += ", "
+		}
+		src += "\"earlier\" " + strconv.Itoa(i+5)
+	}
+	src += "); r = " + name + "("
 	for i := 0; i < nargs; i++ {
 		if i > 0 {
 			src += ", "
@@ -364,6 +391,7 @@ func VerifC17Positions() {
 		return
 	}
 	p := newInterp(prog)
+	p.convertFormat, p.outputFormat = verifC17Convfmt, verifC17Ofmt
 	verifAssert(p.initNativeFuncs(funcs) == nil, "a function map of documented shapes was rejected")
 	vals := make([]value, nargs)
 	sym := verifIntRange(0, 5) // the one argument position that carries a symbolic value; the others are fixed
@@ -377,11 +405,15 @@ func VerifC17Positions() {
 	}
 	verifCalls = nil
 	e := p.execute(prog.Compiled.Begin)
-	verifAssert(len(verifCalls) == 1 && verifCalls[0].fn == name, "the call did not reach exactly the function named")
-	if len(verifCalls) != 1 {
+	wantCalls := 2
+	if name == "zerr" {
+		wantCalls = 2 // the earlier call passes 5, which is not an error
+	}
+	verifAssert(len(verifCalls) == wantCalls && verifCalls[wantCalls-1].fn == name, "the call did not reach exactly the function named")
+	if len(verifCalls) != wantCalls {
 		return
 	}
-	got := verifCalls[0].args
+	got := verifCalls[wantCalls-1].args
 	verifAssert(len(got) == arity, "the Go function did not receive one value per parameter")
 	if len(got) != arity {
 		return
@@ -389,9 +421,10 @@ func VerifC17Positions() {
 	kinds := verifC17ParamKinds[name]
 	for i := 0; i < arity; i++ {
 		if i < nargs {
-			verifCheckArg(kinds[i], vals[i], got[i])
+			verifCheckArg(p, kinds[i], vals[i], got[i])
+			verifCheckSpelled(kinds[i], vals[i], got[i])
 		} else {
-			verifCheckArg(kinds[i], null(), got[i]) // zero value = what an unset argument converts to
+			verifCheckArg(p, kinds[i], null(), got[i]) // zero value = what an unset argument converts to
 			switch g := got[i].(type) {
 			case string:
 				verifAssert(g == "", "a missing string argument is not the zero value")
@@ -444,6 +477,7 @@ func VerifC17Variadic() {
 		return
 	}
 	p := newInterp(prog)
+	p.convertFormat, p.outputFormat = verifC17Convfmt, verifC17Ofmt
 	verifAssert(p.initNativeFuncs(funcs) == nil, "a function map of documented shapes was rejected")
 	vals := make([]value, nargs)
 	sym := verifIntRange(0, 3)
@@ -483,9 +517,10 @@ func VerifC17Variadic() {
 				k = 13
 			}
 			if i < nargs {
-				verifCheckArg(k, vals[i], got[i])
+				verifCheckArg(p, k, vals[i], got[i])
+				verifCheckSpelled(k, vals[i], got[i])
 			} else {
-				verifCheckArg(k, null(), got[i])
+				verifCheckArg(p, k, null(), got[i])
 			}
 		}
 		verifAssert(r.typ == typeNum && r.n == float64(want-1), "result of the variadic call lost")
@@ -496,7 +531,8 @@ func VerifC17Variadic() {
 		}
 		want := ""
 		for i := range got {
-			verifCheckArg(13, vals[i], got[i])
+			verifCheckArg(p, 13, vals[i], got[i])
+			verifCheckSpelled(13, vals[i], got[i])
 			want += "[" + got[i].(string) + "]"
 		}
 		verifAssert(r.typ == typeStr && r.s == want, "result of the variadic call lost")
@@ -542,6 +578,11 @@ func VerifC17Validation() {
 	}
 	_, e2 := ExecProgram(prog, &Config{Funcs: funcs, Environ: []string{}})
 	verifAssert(e2 != nil, "ExecProgram accepted a value that is not a function of the documented shape")
+	// a reused Interpreter refuses it on every run, not only the first
+	ip, _ := New(prog)
+	_, e3 := ip.Execute(&Config{Funcs: funcs, Environ: []string{}, Stdin: bytes.NewReader(nil), Output: &bytes.Buffer{}})
+	_, e4 := ip.Execute(&Config{Funcs: funcs, Environ: []string{}, Stdin: bytes.NewReader(nil), Output: &bytes.Buffer{}})
+	verifAssert(e3 != nil && e4 != nil, "a reused Interpreter accepted a value that is not a function of the documented shape on its first or a later Execute")
 }
 
 func VerifC17Keywords() {
